@@ -1837,7 +1837,7 @@ func (c S3ApiController) PutActions(ctx *fiber.Ctx) error {
 	acct := ctx.Locals("account").(auth.Account)
 	isRoot := ctx.Locals("isRoot").(bool)
 	contentType := ctx.Get("Content-Type")
-	contentEncoding := ctx.Get("Content-Encoding")
+	contentEncoding := utils.StripAwsChunked(ctx.Get("Content-Encoding"))
 	contentDisposition := ctx.Get("Content-Disposition")
 	contentLanguage := ctx.Get("Content-Language")
 	cacheControl := ctx.Get("Cache-Control")
@@ -3596,7 +3596,7 @@ func (c S3ApiController) CreateActions(ctx *fiber.Ctx) error {
 	contentDisposition := ctx.Get("Content-Disposition")
 	contentLanguage := ctx.Get("Content-Language")
 	cacheControl := ctx.Get("Cache-Control")
-	contentEncoding := ctx.Get("Content-Encoding")
+	contentEncoding := utils.StripAwsChunked(ctx.Get("Content-Encoding"))
 	tagging := ctx.Get("X-Amz-Tagging")
 
 	if keyEnd != "" {
